@@ -32,6 +32,9 @@ pub struct Case {
     /// recursion, hundreds of messages, long item lists; one initiator (by the parity of the offset), no second phase
     #[serde(default)]
     pub crowd: Option<(u8, u8, u16)>,
+    /// which sides hold the document read-only (a replica without the write secret reconciles like any other)
+    #[serde(default)]
+    pub read_only: (bool, bool),
 }
 
 /// sizes around which a byte-sized counter, a chunked scan or a two-byte length prefix would show
@@ -85,11 +88,15 @@ impl Prop for C01 {
             prop::option::weighted(0.3, (prop::bool::weighted(0.3), prop::bool::weighted(0.3), vec(egen(), 0..=6), vec(egen(), 0..=6), any::<bool>()))
                 .prop_map(|p| p.map(|(recreate_a, recreate_b, a, b, reopen)| Phase2 { recreate_a, recreate_b, a, b, reopen })),
         )
-            .prop_map(|(pools, a, b, file_a, file_b, config, others, phase2)| Case { pools, a, b, file_a, file_b, config, others, phase2, crowd: None })
+            .prop_map(|(pools, a, b, file_a, file_b, config, others, phase2)| Case { pools, a, b, file_a, file_b, config, others, phase2, crowd: None, read_only: (false, false) })
             .boxed();
         let max_small = 6usize;
         let crowd = (pools(6), vec(egen(), 0..=max_small), vec(egen(), 0..=max_small), prop::bool::weighted(0.1), prop::bool::weighted(0.1), sync_config(), (0u8..8, 0u8..8, prop_oneof![Just(0u16), 0u16..1200]))
-            .prop_map(|(pools, a, b, file_a, file_b, config, crowd)| Case { pools, a, b, file_a, file_b, config, others: vec![], phase2: None, crowd: Some(crowd) });
+            .prop_map(|(pools, a, b, file_a, file_b, config, crowd)| Case { pools, a, b, file_a, file_b, config, others: vec![], phase2: None, crowd: Some(crowd), read_only: (false, false) });
+        let base = (base, prop_oneof![3 => Just((false, false)), 1 => Just((true, false)), 1 => Just((false, true)), 1 => Just((true, true))]).prop_map(|(mut c, ro)| {
+            c.read_only = ro;
+            c
+        });
         prop_oneof![600 => base, 1 => crowd].boxed()
     }
 
@@ -193,8 +200,11 @@ fn check(ctx: &mut Ctx, c: &Case, o: &mut Outcome) -> R<()> {
     for initiator_is_a in initiators {
         let mut sa = AnyStore::new(ctx, c.file_a)?;
         let mut sb = AnyStore::new(ctx, c.file_b)?;
-        let ma = populate(&ctx.rt, &mut sa.store, &nssec, &ea)?;
-        let mb = populate(&ctx.rt, &mut sb.store, &nssec, &eb)?;
+        let ma = populate_cap(&ctx.rt, &mut sa.store, &nssec, &ea, c.read_only.0)?;
+        let mb = populate_cap(&ctx.rt, &mut sb.store, &nssec, &eb, c.read_only.1)?;
+        if initiator_is_a && (c.read_only.0 || c.read_only.1) {
+            o.class("a-side-holds-the-document-read-only");
+        }
         if initiator_is_a {
             classify(o, &ma, &mb);
         }
@@ -324,9 +334,10 @@ fn check(ctx: &mut Ctx, c: &Case, o: &mut Outcome) -> R<()> {
             let more_b: Vec<SignedEntry> = p2.b.iter().map(|e| sign(&nssec, &to_espec(e, &authors, &keys))).collect();
             for (side, recreate, more) in [(0, p2.recreate_a, &more_a), (1, p2.recreate_b, &more_b)] {
                 let st = if side == 0 { &mut sa } else { &mut sb };
+                let ro = if side == 0 { c.read_only.0 } else { c.read_only.1 };
                 if recreate {
                     es(st.store.remove_replica(&ns))?;
-                    es(st.store.import_namespace(nssec.clone().into()))?;
+                    es(st.store.import_namespace(if ro { iroh_docs::Capability::Read(ns) } else { nssec.clone().into() }))?;
                     o.class("second-phase/document-removed-and-re-created");
                 }
                 ctx.rt.block_on(async {
